@@ -298,6 +298,9 @@ class Check:
         except Exception as ex:
             self.bounded.append({"name": name, "design": design, "error": "%s: %s" % (type(ex).__name__, ex), "trace": traceback.format_exc()[-600:]})
             self.notes.append("bounded stand-in %s crashed: %s" % (name, ex))
+            o = Ob("%s/bounded[%s]" % (self.prop, name[:40]), "bounded")
+            o.note = "bounded stand-in crashed (%s: %s); nothing concluded from it" % (type(ex).__name__, ex)
+            self.undecided.append(o)
             return None
         rec = {"name": name, "design": design, "evaluations": out.get("evaluations", 0), "failures": len(out.get("failures", [])),
                "secs": round(time.time() - t, 2), "label": "bounded (not proof)"}
@@ -369,7 +372,7 @@ class Check:
             code = EXIT_CRASH
         level = self.level
         all_ok = (nd == n) and not self.undecided
-        if level == "proof" and not all_ok:
+        if level == "proof" and (not all_ok or self.violations):
             level = "other"
         kf_rows = [{"obligation": o.id, "what": k.get("what")} for o, k in self.known_hits]
         cov = {
